@@ -6,8 +6,10 @@ package libprobe
 import (
 	"bytes"
 	"errors"
+	"fmt"
 	"io"
 	"math/rand"
+	"net/http"
 	"os"
 	"regexp"
 	"strings"
@@ -254,4 +256,60 @@ func TestProbeMaps(t *testing.T) {
 			}
 		}
 	}
+}
+
+// std.spec: (*http.Request).ProtoAtLeast(major, minor) == (ProtoMajor > major || (ProtoMajor == major && ProtoMinor >= minor)).
+func TestProbeProtoAtLeast(t *testing.T) {
+	for maj := -1; maj <= 4; maj++ {
+		for min := -1; min <= 3; min++ {
+			r := &http.Request{ProtoMajor: maj, ProtoMinor: min}
+			for a := 0; a <= 4; a++ {
+				for b := 0; b <= 2; b++ {
+					want := maj > a || (maj == a && min >= b)
+					if got := r.ProtoAtLeast(a, b); got != want {
+						t.Fatalf("ProtoAtLeast(%d,%d) on %d.%d = %v, spec %v", a, b, maj, min, got, want)
+					}
+				}
+			}
+		}
+	}
+}
+
+// trusted by the key-builder contracts of spec/tun: %s renders a string or a byte slice verbatim and %d in decimal, so
+// fmt.Sprintf(prefix+"%s", id) is prefix followed by id, and distinct ids give distinct keys.
+func TestProbeSprintfVerbatim(t *testing.T) {
+	r := rng()
+	for i := 0; i < 20000; i++ {
+		b := make([]byte, r.Intn(24))
+		for j := range b {
+			b[j] = byte(r.Intn(256))
+		}
+		if got := fmt.Sprintf("/tunnel/client/token/%s", b); got != "/tunnel/client/token/"+string(b) {
+			t.Fatalf("%%s of bytes %q rendered as %q", b, got)
+		}
+		s := string(b)
+		n := r.Intn(1<<20) - 10
+		if got := fmt.Sprintf("/tunnel/bundle/%s/%d", s, n); got != "/tunnel/bundle/"+s+"/"+strconvItoa(n) {
+			t.Fatalf("%%s/%%d of %q,%d rendered as %q", s, n, got)
+		}
+	}
+}
+
+func strconvItoa(n int) string {
+	if n == 0 {
+		return "0"
+	}
+	neg := n < 0
+	if neg {
+		n = -n
+	}
+	var d []byte
+	for n > 0 {
+		d = append([]byte{byte('0' + n%10)}, d...)
+		n /= 10
+	}
+	if neg {
+		return "-" + string(d)
+	}
+	return string(d)
 }
